@@ -157,7 +157,7 @@ macro_rules! subject_part {
                 a6(mk(p).into_full::<W>(b))
             }
             /// `P::from_full(full)` — and every other spelling of "take the attributes of the full colour"
-            /// (`From`, `Into`, `FromColorUnclamped`, `IntoColorUnclamped`; `FromColor` clamps and is C03's): they must agree
+            /// (`From`, `Into`, `FromColorUnclamped`, `IntoColorUnclamped`; `into_components` / `from_components` / tuple `Into` of the plain and the Alpha-wrapped colour; `FromColor` clamps and is C03's): they must agree
             /// bit for bit; a disagreement is folded into a NaN result, which fails the from_full comparison.
             pub fn from_full(f: [T; 6]) -> [T; 3] {
                 use palette::convert::IntoColorUnclamped;
@@ -168,7 +168,18 @@ macro_rules! subject_part {
                     p3(<$P<T> as FromColorUnclamped<Cam16<T>>>::from_color_unclamped(c6(f))),
                     p3(IntoColorUnclamped::<$P<T>>::into_color_unclamped(c6(f))),
                 ];
-                let same = others.iter().all(|o| (0..3).all(|i| o[i].to_bits() == a[i].to_bits() || (o[i].is_nan() && a[i].is_nan())));
+                // taking the colour apart into a tuple and rebuilding it (plain and Alpha-wrapped) is the identity
+                let part = $P::from_full(c6(f));
+                let t = part.into_components();
+                let t_arr = [t.0, t.1, t.2.into_inner()];
+                let rebuilt = p3(<$P<T>>::from_components(t));
+                let wrapped: palette::Alpha<$P<T>, T> = palette::Alpha { color: part, alpha: 0.5 as T };
+                let ta = wrapped.into_components();
+                let ta_arr = [ta.0, ta.1, ta.2.into_inner()];
+                let rebuilt_a = palette::Alpha::<$P<T>, T>::from_components(ta);
+                let tuple_from: (T, T, Cam16Hue<T>, T) = wrapped.into();
+                let others: [[T; 3]; 9] = [others[0], others[1], others[2], others[3], t_arr, rebuilt, ta_arr, p3(rebuilt_a.color), [tuple_from.0, tuple_from.1, tuple_from.2.into_inner()]];
+                let same = ta.3 == (0.5 as T) && rebuilt_a.alpha == (0.5 as T) && others.iter().all(|o| (0..3).all(|i| o[i].to_bits() == a[i].to_bits() || (o[i].is_nan() && a[i].is_nan())));
                 if same { a } else { [T::NAN; 3] }
             }
         }
